@@ -46,6 +46,7 @@ template <class K> struct QueryTable {
         add("iter.vertices", 0, [](const M &m) { return hv(collect(m.vertices())); }); add("iter.edges", 0, [](const M &m) { return hv(collect(m.edges())); });
         add("iter.halfedges", 0, [](const M &m) { return hv(collect(m.halfedges())); }); add("iter.faces", 0, [](const M &m) { return hv(collect(m.faces())); });
         add("iter.halffaces", 0, [](const M &m) { return hv(collect(m.halffaces())); }); add("iter.cells", 0, [](const M &m) { return hv(collect(m.cells())); });
+        for (int rep = 0; rep < 6; ++rep) add("PropertyPtr.bool/size/name/def", rep, [&vtag, &ctag, &hetag, &fstr, &eb](const M &) { return (uint64_t)((bool)vtag + 2 * (bool)ctag + 4 * (bool)hetag + 8 * (bool)fstr + 16 * (bool)eb) + 32 * (vtag.size() + ctag.size() + hetag.size() + fstr.size() + eb.size()) + hash_str(vtag.name() + fstr.name() + fstr.def()) + (uint64_t)vtag.def() + eb.def() + vtag.shared() + 2 * vtag.persistent(); });
         add("iter.boundary", 0, [](const M &m) { return hv(collect_valid(m.bv_iter())) ^ hv(collect_valid(m.bhe_iter())) ^ hv(collect_valid(m.be_iter())) ^ hv(collect_valid(m.bhf_iter())) ^ hv(collect_valid(m.bf_iter())) ^ hv(collect_valid(m.bc_iter())); });
         for (int v = 0; v < s.nv; ++v) {
             add("is_deleted(v)", v, [v](const M &m) { return (uint64_t)m.is_deleted(VertexHandle(v)); });
